@@ -202,6 +202,29 @@ func benignStream(c *corpus, r *rng, tier string) *inputSet {
 		}
 	}
 	rec(nil, 7)
+	// the family of C14c: items separated by arbitrary non-empty runs of the eight whitespace
+	// bytes, with optional leading and trailing runs
+	wrun := func(min int) string {
+		k := min + r.intn(3)
+		b := make([]byte, k)
+		for j := range b {
+			b[j] = " \t\n\v\f\r\xa0\x00"[r.intn(8)]
+		}
+		return string(b)
+	}
+	for i := 0; i < n/4; i++ {
+		k := 1 + r.intn(6)
+		var b strings.Builder
+		b.WriteString(wrun(0))
+		for j := 0; j < k; j++ {
+			if j > 0 {
+				b.WriteString(wrun(1))
+			}
+			b.WriteString(item())
+		}
+		b.WriteString(wrun(0))
+		s.add("words-and-numbers-any-whitespace", b.String())
+	}
 	// the e-mail / decimal / sentence shapes (tests of the statement's second clause)
 	for i := 0; i < n/8; i++ {
 		w := func() string { return words[r.intn(len(words))] }
